@@ -543,10 +543,22 @@ def report(pid, pc, tier, seed, results, extra_results, wall):
         if r["status"] != "failed":
             continue
         g = r["g"]
+        # functions whose proof annotations (hints, closure / loop annotations) no longer attach to the code on this
+        # tree: their proof could not be replayed, so a failure inside them is UNDECIDED (exit 2), never an alarm
+        lost_fns = {}
+        for l in g.lost:
+            lost_fns.setdefault(l.get("where", ""), []).append(l.get("anchor", ""))
+        def _lost(fn, what):
+            if fn in lost_fns:
+                undecided.append({"group": g.name, "reason": "proof annotations of %s no longer attach to the code (lost anchor %r): %s is not decided" % (fn, lost_fns[fn][0][:60], what)})
+                return True
+            return False
         for f in r["fails"]:
             if f["clauses"]:
                 for cid in f["clauses"]:
                     if cid in g.clauses and pid in g.clauses[cid]["props"]:
+                        if _lost(g.clauses[cid]["fn"], "clause " + cid) or any(_lost(x["fn"], "clause " + cid) for x in f["src"]):
+                            continue
                         # a failed *assumed* clause is a precondition of a callee stub that a verified caller
                         # in this group does not establish: attribute it to the caller if it belongs to the property
                         if g.clauses[cid].get("assumed"):
@@ -557,6 +569,8 @@ def report(pid, pc, tier, seed, results, extra_results, wall):
             elif f["src"] or f.get("hint_src"):
                 fn = (f["src"] or f["hint_src"])[0]["fn"]
                 if fn in fn_of_prop:
+                    if _lost(fn, "an implicit obligation in its body"):
+                        continue
                     body_fail.append((fn, f, g))
             else:
                 internal.append((g.name, f))
